@@ -19,7 +19,7 @@ REGISTER = True
 TECHNIQUE = 'exhaustive enumeration of all boolean arrays up to a length bound x all k, plus Hypothesis-generated long arrays, against a groupby reference model and direct run predicates'
 LEVEL_TEXT = 'Exhaustive for every array of length <= 12 (quick) / <= 16 (thorough) and every min_n_cycles 0..len+1; random structured search beyond (length <= 400, k <= 50). Complete below the bound, sampling above it.'
 ASSUMPTIONS = ['the input is handed over as a fresh copy (the function works in place; in-place-ness is C15 territory)',
-               'numpy bool arrays only (the documented input type)']
+               '1-D numpy bool arrays only (the documented input type), in C-contiguous, reversed-view, strided-view and table-column layouts']
 TRUSTED = ['numpy', 'itertools.groupby reference run filter']
 
 
@@ -41,6 +41,22 @@ def runs_of(mask):
     return res
 
 
+def as_layout(arr, layout):
+    """the same boolean values as a fresh array in another memory layout (all are 1-D numpy bool arrays)"""
+    n = len(arr)
+    if layout == 'rev':                      # reversed view
+        return arr[::-1].copy()[::-1]
+    if layout == 'stride':                   # every second element of a longer buffer
+        buf = np.zeros(2 * n, dtype=bool)
+        buf[::2] = arr
+        return buf[::2]
+    if layout == 'col':                      # one column of a C-ordered 2-D table
+        tab = np.zeros((n, 3), dtype=bool)
+        tab[:, 1] = arr
+        return tab[:, 1]
+    return arr.copy()
+
+
 def check(case, rec):
     bits = case['bits']
     k = case['k']
@@ -50,7 +66,7 @@ def check(case, rec):
         k = np.int64(k)
     arr = np.array(bits, dtype=bool)
     orig = arr.copy()
-    out = guarded(check_min_burst_cycles, arr.copy(), min_n_cycles=k)
+    out = guarded(check_min_burst_cycles, as_layout(arr, case.get('layout', 'c')), min_n_cycles=k)
     if not isinstance(out, np.ndarray) or out.shape != orig.shape:
         raise Violation('shape', 'returned %r for input of length %d' % (getattr(out, 'shape', type(out)), len(orig)))
     if out.dtype != bool:
@@ -67,14 +83,14 @@ def check(case, rec):
     exp = ref_runs(orig, k)
     if not np.array_equal(out, exp):
         raise Violation('differs-from-reference', 'bits=%s k=%s' % (bits, k))
-    again = guarded(check_min_burst_cycles, out.copy(), min_n_cycles=k)
+    again = guarded(check_min_burst_cycles, as_layout(np.array(out, dtype=bool), case.get('layout', 'c')), min_n_cycles=k)
     if not np.array_equal(again, out):
         raise Violation('not-idempotent', 'bits=%s k=%s' % (bits, k))
     lens = [b - a for a, b in runs]
     edge_short = any((a == 0 or b == len(orig)) and b - a < k for a, b in runs)
     edge_long = any((a == 0 or b == len(orig)) and b - a >= k for a, b in runs)
     mixed = any(n >= k for n in lens) and any(n < k for n in lens)
-    rec.label('k=0' if k == 0 else 'k>0', 'edge-run' if (edge_short or edge_long) else 'no-edge-run',
+    rec.label('layout:' + case.get('layout', 'c'), 'k=0' if k == 0 else 'k>0', 'edge-run' if (edge_short or edge_long) else 'no-edge-run',
               'mixed' if mixed else 'unmixed', 'empty' if not lens else 'has-runs')
     rec.nontrivial(mixed or edge_short)
 
@@ -88,7 +104,7 @@ def enum(tier, shard, nshards):
             if idx % nshards != shard:
                 continue
             for k in range(0, n + 2):
-                yield {'bits': list(bits), 'k': k}
+                yield {'bits': list(bits), 'k': k, 'layout': ['c', 'rev', 'stride', 'col'][(idx + k) % 4] if n <= 10 else 'c'}
 
 
 def strategy(tier):
@@ -103,14 +119,15 @@ def strategy(tier):
         bits = bits[:400]
         k = draw(st.one_of(st.integers(0, 50), st.sampled_from(sorted(set(runs))), st.sampled_from(sorted(set(r + 1 for r in runs)))))
         ktype = draw(st.sampled_from(['int', 'int', 'float', 'npint']))
-        return {'bits': bits, 'k': k, 'ktype': ktype}
+        return {'bits': bits, 'k': k, 'ktype': ktype, 'layout': draw(st.sampled_from(['c', 'c', 'rev', 'stride', 'col']))}
     return s()
 
 
 def decode(fdp):
     n = fdp.ConsumeIntInRange(1, 96)
     bits = [int(fdp.ConsumeBool()) for _ in range(n)]
-    return {'bits': bits, 'k': fdp.ConsumeIntInRange(0, 100), 'ktype': ['int', 'float', 'npint'][fdp.ConsumeIntInRange(0, 2)]}
+    return {'bits': bits, 'k': fdp.ConsumeIntInRange(0, 100), 'ktype': ['int', 'float', 'npint'][fdp.ConsumeIntInRange(0, 2)],
+            'layout': ['c', 'rev', 'stride', 'col'][fdp.ConsumeIntInRange(0, 3)]}
 
 
 PARTS = [
